@@ -155,7 +155,7 @@ func (h *c32Hist) settle() []c32Member {
 		if !n.Up || n == h.leader || !inCfg[n.Name] {
 			continue
 		}
-		deadline := time.Now().Add(60 * time.Second)
+		deadline := time.Now().Add(180 * time.Second)
 		for {
 			got, err := c32Config(n.S)
 			if err == nil {
@@ -205,8 +205,28 @@ func (h *c32Hist) node(name string) *clu8Node {
 // join performs Store.Join on `on` and evaluates outcome + role oracle.
 func (h *c32Hist) join(label string, on *clu8Node, id, addr string, voter bool) {
 	before, _ := c32Config(h.leader.S)
-	err, done := h.withWatchdog("Join", func() error { return on.S.Join(joinRequest(id, addr, voter)) })
-	if !done {
+	var err error
+	done := false
+	for attempt := 0; attempt < 6; attempt++ {
+		err, done = h.withWatchdog("Join", func() error { return on.S.Join(joinRequest(id, addr, voter)) })
+		if !done {
+			return
+		}
+		if on != h.leader || !clu8Transient(err) {
+			break
+		}
+		// a transient leadership error on the leader is not an answer: wait for a leader and ask again
+		h.rep.Count("membership-op-retried:transient-leadership-error")
+		l := h.c.Leader(90 * time.Second)
+		if l == nil {
+			h.aborted = "no leader"
+			return
+		}
+		on, h.leader = l, l
+		before, _ = c32Config(h.leader.S)
+	}
+	if on == h.leader && clu8Transient(err) {
+		h.aborted = "Join kept failing with a transient leadership error: " + err.Error()
 		return
 	}
 	role := "nonvoter"
@@ -251,8 +271,27 @@ func (h *c32Hist) join(label string, on *clu8Node, id, addr string, voter bool) 
 
 func (h *c32Hist) remove(label, id string) {
 	before, _ := c32Config(h.leader.S)
-	err, done := h.withWatchdog("Remove", func() error { return h.leader.S.Remove(context.Background(), removeNodeRequest(id)) })
-	if !done {
+	var err error
+	done := false
+	for attempt := 0; attempt < 6; attempt++ {
+		err, done = h.withWatchdog("Remove", func() error { return h.leader.S.Remove(context.Background(), removeNodeRequest(id)) })
+		if !done {
+			return
+		}
+		if !clu8Transient(err) {
+			break
+		}
+		h.rep.Count("membership-op-retried:transient-leadership-error")
+		l := h.c.Leader(90 * time.Second)
+		if l == nil {
+			h.aborted = "no leader"
+			return
+		}
+		h.leader = l
+		before, _ = c32Config(h.leader.S)
+	}
+	if clu8Transient(err) {
+		h.aborted = "Remove kept failing with a transient leadership error: " + err.Error()
 		return
 	}
 	if n := h.node(id); n != nil && n.Up && err == nil {
@@ -347,10 +386,10 @@ func c32RunHistory(t *testing.T, rep *vfReport, r *vfRng, nOps, maxReal int, scr
 	h := &c32Hist{t: t, rep: rep, c: c}
 	n0, err := c.NewNode()
 	if err != nil {
-		t.Fatalf("C32 harness: %v", err)
+		clu8Skip("C32 harness: %v", err)
 	}
 	if err := c.Bootstrap(n0); err != nil {
-		t.Fatalf("C32 harness: bootstrap: %v", err)
+		clu8Skip("C32 harness: bootstrap: %v", err)
 	}
 	h.leader = n0
 	h.emit("reset", "ok")
@@ -363,8 +402,14 @@ func c32RunHistory(t *testing.T, rep *vfReport, r *vfRng, nOps, maxReal int, scr
 		"reap-observation", "reap-observation"}
 	for i := 0; i < nOps && h.aborted == ""; i++ {
 		if !h.leader.S.IsLeader() {
-			h.aborted = "leadership moved"
-			break
+			// leadership moved (overloaded machine): carry on with whoever leads now
+			l := c.Leader(90 * time.Second)
+			if l == nil {
+				h.aborted = "no leader"
+				break
+			}
+			h.leader = l
+			rep.Count("leader-re-resolved")
 		}
 		kind := ""
 		if script != nil {
@@ -556,7 +601,7 @@ func c32NotifyScenario(t *testing.T, rep *vfReport, name string, nNodes int, exp
 	for i := 0; i < nNodes; i++ {
 		n, err := c.NewNode()
 		if err != nil {
-			t.Fatalf("C32 harness: %v", err)
+			clu8Skip("C32 harness: %v", err)
 		}
 		nodes = append(nodes, n)
 	}
@@ -583,7 +628,7 @@ func c32NotifyScenario(t *testing.T, rep *vfReport, name string, nNodes int, exp
 			hasLeader := n.S.HasLeader()
 			wasBoot, wasN := n.S.bootstrapped, len(n.S.notifyingNodes)
 			if err := n.S.Notify(notifyRequest(ids[k], addrs[k])); err != nil {
-				t.Fatalf("C32 harness: Notify: %v", err)
+				clu8Skip("C32 harness: Notify: %v", err)
 			}
 			after, _ := c32Config(n.S)
 			c32Unique(rep, n.Name, after, hist)
@@ -646,22 +691,22 @@ func c32RealReap(t *testing.T, rep *vfReport) {
 	defer c.Close()
 	n0, err := c.NewNode()
 	if err != nil {
-		t.Fatalf("C32 harness: %v", err)
+		clu8Skip("C32 harness: %v", err)
 	}
 	if err := c.Bootstrap(n0); err != nil {
-		t.Fatalf("C32 harness: %v", err)
+		clu8Skip("C32 harness: %v", err)
 	}
 	var all []*clu8Node
 	for i := 0; i < 3; i++ {
 		n, err := c.NewNode()
 		if err != nil {
-			t.Fatalf("C32 harness: %v", err)
+			clu8Skip("C32 harness: %v", err)
 		}
-		if err := n0.S.Join(joinRequest(n.Name, n.Addr, i < 2)); err != nil {
-			t.Fatalf("C32 harness: join: %v", err)
+		if err := clu8JoinRetry(c, n, i < 2, 90*time.Second); err != nil {
+			clu8Skip("C32 harness: join: %v", err)
 		}
 		if _, err := n.S.WaitForLeader(60 * time.Second); err != nil {
-			t.Fatalf("C32 harness: no leader on %s", n.Name)
+			clu8Skip("C32 harness: no leader on %s", n.Name)
 		}
 		all = append(all, n)
 	}
@@ -732,14 +777,13 @@ func TestVerifC32(t *testing.T) {
 	guarded := func(nOps int, script []string) {
 		var ops, impl []string
 		ok := false
-		fin, dump := clu8Guard(10*time.Minute, func() { ops, impl, ok = c32RunHistory(t, rep, r, nOps, maxReal, script) })
-		if !fin {
-			rep.Note("C32: a history did not finish within 10 min and was abandoned; goroutines: %s", dump)
-			rep.Count("histories-abandoned-by-watchdog")
+		if !clu8Case(rep, "history", 10*time.Minute, func() { ops, impl, ok = c32RunHistory(t, rep, r, nOps, maxReal, script) }) {
 			return
 		}
 		if ok {
 			completed++
+		} else {
+			rep.Count("cases-abandoned")
 		}
 		segOps, segImpl = append(segOps, ops), append(segImpl, impl)
 	}
@@ -786,9 +830,12 @@ func TestVerifC32(t *testing.T) {
 		ok   bool
 		f    func(int, []string, []string) ([]string, []string)
 	}{{"all-distinct", 3, true, same}, {"duplicate-address", 2, false, dupAddr}, {"self-missing", 2, false, noSelf}} {
-		ops, impl := c32NotifyScenario(t, rep, sc.name, sc.n, sc.ok, sc.f)
-		segOps, segImpl = append(segOps, ops), append(segImpl, impl)
+		var ops, impl []string
+		if clu8Case(rep, "notify:"+sc.name, 10*time.Minute, func() { ops, impl = c32NotifyScenario(t, rep, sc.name, sc.n, sc.ok, sc.f) }) {
+			segOps, segImpl = append(segOps, ops), append(segImpl, impl)
+		}
 	}
-	c32RealReap(t, rep)
+	clu8Case(rep, "real-reap", 10*time.Minute, func() { c32RealReap(t, rep) })
+	clu8Floor(t, rep)
 	rep.vfCompareSegments("membership", segOps, segImpl)
 }
